@@ -10,7 +10,7 @@ from vf.runner import Acc, filler
 PROPERTY = "C08"
 CONCUR_FILES = ('bits/script/utils.py', 'bits/utils.py', 'bits/base58.py', 'bits/bips/bip173.py')
 # (thread a, thread b), warm-up: indices into seq_ops() - the ordinary single-case checks run concurrently (vf/concur.py)
-CONCUR_SCEN = [((0, 2), ()), ((5, 6), (0,)), ((3, 9), (2,)), ((5, 7), (5,))]
+CONCUR_SCEN = [((0, 2), ()), ((5, 6), (0,)), ((3, 9), (2,)), ((5, 7), (5,)), ((0, 2, 5), ())]   # the last one: three threads
 LEVEL = "exploration"
 ENGINES = ["E1-scope-enumerator", "E2-small-curve"]
 RULE = ("positive: FULL product networks x {p2pkh,p2sh} x 8 payload patterns; networks x v0 x {20,32}; networks x v1..16 x EVERY "
@@ -171,7 +171,7 @@ def jobs(tier, seed):
     from vf.runner import seq_jobs
     js += seq_jobs(3, weight=4)
     from vf.runner import concur_jobs
-    js += concur_jobs(len(CONCUR_SCEN))
+    js += concur_jobs(len(CONCUR_SCEN) - (1 if tier == "quick" else 0))
     return js
 
 
@@ -183,7 +183,7 @@ def run_job(job):
         return run_concur_job(job, scens, run_case, PROPERTY, CONCUR_FILES)
     if job["part"] == "seq":
         from vf.runner import run_seq_job
-        return run_seq_job(job, seq_ops(job), run_case)
+        return run_seq_job(job, seq_ops(job), run_case, depth=3 if job["tier"] == "quick" else 4)
     acc = Acc(job)
     seed, part = job["seed"], job["part"]
     if part == "positive":
